@@ -155,11 +155,11 @@ def step_audit(rel_files=None):
         text = strip_comments(p.read_text())
         for rx, what in FORBIDDEN:
             for m in rx.finditer(text):
-                hits.append('%s: %s' % (p.relative_to(VERIF), what))
+                hits.append('%s: %s' % (p.relative_to(COQ.parent), what))
         secs = _in_section_ranges(text)
         for m in re.finditer(r'^\s*(Variable|Variables|Hypothesis|Hypotheses|Context)\b', text, re.M):
             if not any(a <= m.start() < b for a, b in secs):
-                hits.append('%s: %s outside a section' % (p.relative_to(VERIF), m.group(1)))
+                hits.append('%s: %s outside a section' % (p.relative_to(COQ.parent), m.group(1)))
     proj = COQ / '_CoqProject'
     if proj.exists() and re.search(r'type-in-type|impredicative-set|-vos|-vok', proj.read_text()):
         hits.append('_CoqProject: forbidden flag')
